@@ -12,34 +12,34 @@ namespace SparseSpace
 
 /-- `StandardCombi.__call__(points)` for one point and one output component:
 `Σ interpolate_points(points, component_grid) * component_grid.coefficient` -/
-def combiInterp (a b : List Rat) (bd : Bool) (c : List (LV × Int)) (f : List Rat → Rat) (x : List Rat) : Rat :=
+def combiInterp (a b : List Rat) (bd : Flags) (c : List (LV × Int)) (f : List Rat → Rat) (x : List Rat) : Rat :=
   (c.map fun p => (p.2 : Rat) * interpN (meshAxes a b p.1 bd) (meshVal a b bd f) x).sum
 
 /-- `StandardCombi.__call__(points)`; `none` = scipy's `ValueError` (some point outside `[a,b]`) -/
-def combiCall? (a b : List Rat) (bd : Bool) (c : List (LV × Int)) (f : List Rat → Rat)
+def combiCall? (a b : List Rat) (bd : Flags) (c : List (LV × Int)) (f : List Rat → Rat)
     (xs : List (List Rat)) : Option (List Rat) :=
   if c.all (fun p => xs.all (inBounds (meshAxes a b p.1 bd))) then some (xs.map (combiInterp a b bd c f)) else none
 
 /-- `StandardCombi.interpolate_grid(grid_coordinates)` = `__call__` on the cross product -/
-def combiInterpGrid? (a b : List Rat) (bd : Bool) (c : List (LV × Int)) (f : List Rat → Rat)
+def combiInterpGrid? (a b : List Rat) (bd : Flags) (c : List (LV × Int)) (f : List Rat → Rat)
     (coords : List (List Rat)) : Option (List Rat) :=
   combiCall? a b bd c f (cross coords)
 
 /-- `StandardCombi.perform_operation(lmin, lmax)` with `Integration`: `Σ grid.integrate(f, l, a, b) * coefficient` -/
-def combiIntegral (a b : List Rat) (bd : Bool) (c : List (LV × Int)) (f : List Rat → Rat) : Rat :=
+def combiIntegral (a b : List Rat) (bd : Flags) (c : List (LV × Int)) (f : List Rat → Rat) : Rat :=
   (c.map fun p => (p.2 : Rat) * quadGrid a b p.1 bd f).sum
 
 /-- `StandardCombi.get_points_and_weights()`: concatenated points, weights multiplied by the coefficient -/
-def combiPointsWeights (a b : List Rat) (bd : Bool) (c : List (LV × Int)) : List (List Rat × Rat) :=
+def combiPointsWeights (a b : List Rat) (bd : Flags) (c : List (LV × Int)) : List (List Rat × Rat) :=
   c.flatMap fun p => List.zipWith (fun x w => (x, w * (p.2 : Rat))) (gridPoints a b p.1 bd) (gridWeights a b p.1 bd)
 
 /-- the dictionary of `StandardCombi.check_combi_scheme` at one point: sum of the coefficients of the component
 grids that contain `x` -/
-def pointCoeffSum (a b : List Rat) (bd : Bool) (c : List (LV × Int)) (x : List Rat) : Int :=
+def pointCoeffSum (a b : List Rat) (bd : Flags) (c : List (LV × Int)) (x : List Rat) : Int :=
   ((c.filter fun p => (gridPoints a b p.1 bd).contains x).map (·.2)).sum
 
 /-- all points of all component grids (with repetitions) -/
-def unionPoints (a b : List Rat) (bd : Bool) (c : List (LV × Int)) : List (List Rat) :=
+def unionPoints (a b : List Rat) (bd : Flags) (c : List (LV × Int)) : List (List Rat) :=
   c.flatMap fun p => gridPoints a b p.1 bd
 
 end SparseSpace
